@@ -79,6 +79,7 @@ def main(argv=None):
         with ctx.Pool(min(a.jobs, max(1, len(rj)))) as pool:
             rr = list(pool.imap_unordered(_run_job, rj))
         results.extend(rr)
+        if any(r.violations for r in rr): completed.append(rung); break      # a counterexample was found: no need to go deeper
         if all(not r.inconclusive for r in rr): completed.append(rung)
         else:
             if any('truncated' in x for r in rr for x in r.inconclusive) and completed:
@@ -102,6 +103,8 @@ def main(argv=None):
         if outs is not None:
             for c, o in zip(cases[:len(wit)], outs[:len(wit)]):
                 ok, why = mod.compare_native(c, o)
+                if ok and o.get('holds') is False and not viol:
+                    ok, why = False, f'native oracle rejects a case on which every solver obligation held: {o.get("why")}'
                 if ok: validated += 1
                 else: inconcl.append(f'witness mismatch between interpreter and native code: {why} case={json.dumps(c)[:300]}')
             vi = [v for v in viol if getattr(v, 'case', None) is not None]
